@@ -6,7 +6,7 @@ Not decided: value normalisation (rounding, tuple/str conversion).
 """
 import ast
 import re
-
+from ..model import walk_shallow, call_name, is_self_attr, dotted_name, enclosing_function, parent
 from ..model import walk_shallow, call_name, is_self_attr, dotted_name, enclosing_function
 from ..util import (has_call, find_calls, assigned_value, const_str, unparse, kw, arg_or_kw, enclosing_stmt,
                     guards_of, call_tail, name_bound, bound_names)
@@ -39,6 +39,8 @@ def run(ctx):
     r3_packing(ctx, enc, res)
     r4_one_path(ctx, run_)
     r5_normalisation(ctx, res)
+    r6_table_alignment(ctx)
+    r7_minimize_guards(ctx)
     from . import c12
     c12.gz_predicate(ctx, "C07.R4")
 
@@ -339,6 +341,66 @@ def r4_one_path(ctx, run_):
            bool(rets) and all(isinstance(x.value, ast.Call) and call_tail(x.value) == "read" and x.value.func.value in r for x in rets), stmt="return read-back")
 
 
+def r6_table_alignment(ctx):
+    """Table.insert with a mapping: rows whose key sets differ are aligned by padding.  Every column must grow by the number of rows
+    being inserted: a column the new data lacks is padded with that many Missing, a column the table lacked is prefixed with one Missing
+    per row already in the table."""
+    ctx.rule("C07.R6", "Table.insert keeps the table rectangular: a column absent from the inserted rows is padded with len(<inserted data>) Missing values, "
+                       "a new column is prefixed with len(self) Missing values, an existing column is extended with the inserted values")
+    fn = ctx.fn(RES, "Table.insert")
+
+    def origin(e):
+        """'table' if the count is the table's current length, 'data' if it is derived from the inserted data"""
+        if isinstance(e, ast.Name):
+            vs = assigned_value(fn, e.id)
+            kinds = {origin(v) for v in vs}
+            return kinds.pop() if len(kinds) == 1 else "mixed"
+        txt = unparse(e)
+        if txt == "len(self)":
+            return "table"
+        if "data" in {x.id for x in ast.walk(e) if isinstance(x, ast.Name)} and "self" not in {x.id for x in ast.walk(e) if isinstance(x, ast.Name)}:
+            return "data"
+        return "other"
+    pads = [c for c in ast.walk(fn) if isinstance(c, ast.Call) and call_name(c) == "repeat" and len(c.args) == 2 and unparse(c.args[0]) == "Missing"]
+    ctx.floor("C07.R6", "Missing paddings in Table.insert", len(pads), 2)
+    for c in pads:
+        par = parent(c)
+        prefix = isinstance(par, ast.Call) and call_name(par) == "chain" and par.args and par.args[0] is c   # Missing first, then the new values: a new column
+        want = "table" if prefix else "data"
+        got = origin(c.args[1])
+        ctx.ob("C07.R6", RES, "Table.insert", c, ("a new column is prefixed with one Missing per existing row" if prefix else "a column absent from the inserted rows is padded with one Missing per inserted row"),
+               got == want, detail={"count": unparse(c.args[1]), "count is the length of": got}, stmt="prefix new column" if prefix else "pad absent column")
+
+
+def r7_minimize_guards(ctx):
+    ctx.rule("C07.R7", "minimize never rounds a non-finite float (NaN/inf survive normalisation, nested or not): every round(...) of a value is guarded by "
+                       "isfinite(<that value>), locally or at every call site of the helper it sits in")
+    UT = "coba/utilities.py"
+    fn = ctx.fn(UT, "minimize")
+    from ..util import all_guards
+    rounds = [c for c in ast.walk(fn) if isinstance(c, ast.Call) and call_name(c) == "round" and c.args]
+    ctx.floor("C07.R7", "rounding sites in minimize", len(rounds), 1)
+
+    def guarded(node, var, holder):
+        for t, pol in all_guards(node, holder):
+            if pol and isinstance(t, ast.Call) and call_name(t) in ("isfinite", "math.isfinite") and t.args and unparse(t.args[0]) == var:
+                return True
+        return False
+    for c in rounds:
+        names = [x.id for x in ast.walk(c.args[0]) if isinstance(x, ast.Name) and x.id not in ("P", "precision")]
+        var = names[0] if names else None
+        holder = enclosing_function(c)
+        ok = var is not None and guarded(c, var, holder)
+        where = "locally"
+        if not ok and var is not None and holder is not fn and isinstance(holder, ast.FunctionDef) and var in [a.arg for a in holder.args.args]:
+            # a helper: every call site must pass a value it has checked
+            i = [a.arg for a in holder.args.args].index(var)
+            calls = [k for k in ast.walk(fn) if isinstance(k, ast.Call) and isinstance(k.func, ast.Name) and k.func.id == holder.name and k is not c]
+            ok = bool(calls) and all(len(k.args) > i and guarded(k, unparse(k.args[i]), enclosing_function(k) or fn) for k in calls)
+            where = f"at the {len(calls)} call site(s) of {holder.name}"
+        ctx.ob("C07.R7", UT, "minimize", c, "rounding is applied to finite floats only", ok, detail={"value": var, "checked": where})
+
+
 def r5_normalisation(ctx, res):
     ctx.rule("C07.R5", "the reader applies exactly the documented normalisation to params: a top-level list value is read back as a tuple of the "
                        "same elements (nested values untouched)")
@@ -376,6 +438,8 @@ def _sort_keys_default(tree):
 
 
 CONTROLS = [
+    ("absent column padded with the table length", RES, M.replace_expr("Table.insert", "repeat(Missing, dat_len)", "repeat(Missing, old_len)"), "C07.R6"),
+    ("nested floats rounded without isfinite", "coba/utilities.py", M.replace_expr("minimize", "isinstance(v, float) and isfinite(v)", "isinstance(v, float)"), "C07.R7"),
     ("params tuple-d recursively", RES, M.replace_expr("TransactionResult.filter", "tuple(v) if isinstance(v, list) else v", "tuple(map(tuple, v)) if isinstance(v, list) else v"), "C07.R5"),
     ("sorted keys by default", "coba/json.py", _sort_keys_default, "C07.R1"),
     ("non-ascii log", RES, M.replace_expr("TransactionEncode.filter", "coba.json.dumps(minimize(x), separators=(',', ':'))", "coba.json.dumps(minimize(x), separators=(',', ':'), ensure_ascii=False)"), "C07.R1"),
